@@ -5,6 +5,7 @@ import (
 	"os"
 	"runtime"
 	"sort"
+	"strings"
 	"time"
 
 	"github.com/ovrclk/akash/provider/event"
@@ -57,6 +58,9 @@ type Rec struct {
 	Rets    [][]interface{} `json:"rets"`    // Submit calls that returned in this step: [r, kind]
 	Ann     [][2]int        `json:"ann"`     // ManifestReceived events received from the bus in this step: [lease, mf]
 	AnnHook [][2]int        `json:"annhook"` // the same as seen by the publish hook
+	Chain   string          `json:"chain"`   // ground truth of the scripted chain: "inflight" iff a Deployment query is held at the gate
+	Blocked bool            `json:"blocked"` // (timeout only) the manager or service goroutine is blocked outside its idle select
+	Where   string          `json:"where"`   // (timeout only) where it is blocked
 	Missing []int           `json:"missing"` // requests without a return although the manager is quiescent
 	Timeout string          `json:"timeout"` // non-empty: the step did not complete (what was awaited)
 	Errs    []string        `json:"errs"`    // raw reply texts (for humans)
@@ -69,6 +73,54 @@ func emptyState(svc string) StateRec {
 
 // swallowGrace is how long a stop request may sit next to a withheld hostname answer before the answer is released.
 const swallowGrace = 2 * time.Second
+
+// blockedLoops inspects the goroutine stacks for the manager's and the service's loops. A loop parked in its own
+// select is idle (it waits for stimuli: nothing hangs); a loop parked anywhere else (a channel receive or send, a
+// nested select) while the harness is waiting for it is blocked.
+func blockedLoops() (bool, string) {
+	buf := make([]byte, 4<<20)
+	n := runtime.Stack(buf, true)
+	gs := strings.Split(string(buf[:n]), "\n\n")
+	// (the manager first: a service loop waiting for a blocked manager is the consequence, not the cause)
+	for _, loop := range []string{"provider/manifest.(*manager).run(", "provider/manifest.(*service).run("} {
+		for _, g := range gs {
+			if !strings.Contains(g, loop) {
+				continue
+			}
+			lines := strings.Split(g, "\n")
+			if len(lines) < 2 {
+				continue
+			}
+			state := lines[0] // goroutine N [chan receive, 2 minutes]:
+			if i := strings.Index(state, "["); i >= 0 {
+				state = strings.TrimSuffix(strings.SplitN(state[i+1:], ",", 2)[0], "]:")
+			}
+			// the innermost frame of the repository's code
+			top := ""
+			for _, ln := range lines[1:] {
+				if strings.HasPrefix(ln, "github.com/ovrclk/akash/") {
+					top = ln
+					break
+				}
+			}
+			fn := top
+			if i := strings.Index(fn, "("); i > 0 {
+				if j := strings.LastIndex(fn[:i], "/"); j >= 0 {
+					fn = fn[j+1:]
+				}
+			}
+			if i := strings.LastIndex(fn, "("); i > 0 {
+				fn = fn[:i]
+			}
+			idle := state == "select" && strings.HasPrefix(top, "github.com/ovrclk/akash/"+loop)
+			if state == "running" || state == "runnable" || idle {
+				continue
+			}
+			return true, state + " in " + fn
+		}
+	}
+	return false, ""
+}
 
 var stackDumps = 3
 
@@ -158,7 +210,15 @@ type runner struct {
 	rec       *Rec
 }
 
+// timeoutBudget is the number of full-length step timeouts this process still affords; afterwards steps of later
+// scripts are given a tenth of the time (every script that times out is re-examined alone, with doubled full
+// timeouts, by the check, so nothing is decided on the short wait).
+var timeoutBudget = 3
+
 func newRunner(e *env, script int, stepTO, hangTO time.Duration) *runner {
+	if timeoutBudget <= 0 {
+		stepTO /= 10
+	}
 	return &runner{e: e, stepTO: stepTO, hangTO: hangTO, script: script, sub: map[int]int{}, chReq: map[string]int{},
 		open: map[int]bool{}, gaveUp: map[int]bool{}}
 }
@@ -391,9 +451,12 @@ func (r *runner) do(i int, s Step) (*Rec, bool) {
 	r.curReq = 0
 	e := r.e
 	fail := func(what string) (*Rec, bool) {
+		timeoutBudget--
 		dumpStacks(r.script, i, what)
 		rec.Timeout = what
 		rec.St = r.state()
+		rec.Chain = rec.St.Fetch
+		rec.Blocked, rec.Where = blockedLoops()
 		return rec, false
 	}
 	mgrSaw := func(name string) func() bool {
@@ -409,6 +472,7 @@ func (r *runner) do(i int, s Step) (*Rec, bool) {
 		}
 		r.managers = 1
 		rec.St = r.state()
+		rec.Chain = rec.St.Fetch
 		return rec, true
 	case "LeaseWon":
 		_ = r.publish(e.leaseWon(s.Arg))
@@ -649,7 +713,29 @@ wait:
 			want[q] = true
 		}
 	}
-	quiet := rec.St.Fetch == "idle"
+	// Quiescence is judged on the harness' own knowledge of the chain, not on the manager's word: a query the manager
+	// says is in flight must have reached the scripted chain (it does within microseconds); if none arrives, none is
+	// in flight, whatever the manager believes.
+	if r.fetch != nil && r.fetch.ctx.Err() != nil {
+		r.fetch = nil
+	}
+	if rec.St.Fetch == "inflight" && r.fetch == nil {
+		full := r.stepTO
+		r.stepTO = r.hangTO
+		if hangBudget <= 0 {
+			r.stepTO = r.hangTO / 20
+		}
+		if !r.awaitFetch() {
+			hangBudget--
+			rec.Errs = append(rec.Errs, "the manager reports a chain query in flight, none reached the chain")
+		}
+		r.stepTO = full
+	}
+	rec.Chain = "idle"
+	if r.fetch != nil {
+		rec.Chain = "inflight"
+	}
+	quiet := rec.Chain == "idle"
 	if quiet {
 		for q := range r.open {
 			want[q] = true
@@ -695,6 +781,7 @@ wait:
 	if r.over != nil {
 		// two iterations in one step: the step's own record describes the first, the surplus one follows
 		over := r.over
+		over.Chain = rec.Chain
 		over.St = rec.St
 		rec.St = r.stateAt(r.first, "run")
 		if n := len(rec.AnnHook); n <= len(rec.Ann) {
